@@ -261,6 +261,8 @@ def sconcat(a, b):
 def _lit_char_at(text, j):
     """code of text[j] for symbolic j (0 <= j < len(text) assumed)."""
     if isinstance(j, int):
+        if not (0 <= j < len(text)):
+            return -1          # only reached as the dead branch of a guarded selection over several atoms
         return ord(text[j])
     e = z3.IntVal(ord(text[-1]))
     for idx in range(len(text) - 2, -1, -1):
